@@ -110,6 +110,8 @@ def gen_strings(ctx, exh_len, n_tok, n_rand):
                         tok = tok[1:]
                     if rng.random() < 0.05:
                         tok = "0" + tok if not tok.startswith("-") else "-0" + tok[1:]
+                    if rng.random() < 0.12 and not tok.startswith("-"):
+                        tok = "+" + tok  # an explicit plus sign, which also ends the number before it
                 sep = rng.choice([" ", ",", " ,", ", ", ""]) if i else ""
                 if sep == "" and i and not tok.startswith(("-", "+", ".")) :
                     sep = " " if not (l in "Aa" and i in (4, 5)) else ""
@@ -125,7 +127,7 @@ def gen_strings(ctx, exh_len, n_tok, n_rand):
             out.append(c + txt)
     out += ["", " ", "M", "Z", "M1 2Z", "a.1.2.3,10-.4-.5.6.7.8e+2,01.9+.1e-2", "A3.996 3.996 0 0016 9",
             "M0 0 1,2 3, 4 C5, 6-7.0.5 8-9Z", "I love kittens", "M 1 2", "M1 2 ", "M1\x0b2", "M1,2,", "M,1,2",
-            "M 1 2 3", "z1", "M1e5 2E-3", "L005,1", "M01 02", "M1 2 L 3", "M1,2L3,4e", "\x0cM1 2"]
+            "M 1 2 3", "M1+2 3+4", "M+1+2+3+4", "h1e+1+2", "l1+2-3+4+5-6", "z1", "M1e5 2E-3", "L005,1", "M01 02", "M1 2 L 3", "M1,2L3,4e", "\x0cM1 2"]
     return out
 
 
